@@ -225,7 +225,16 @@ def check_route(ctx, case):
             rr.shuffle(parts)
         for p_ in parts:
             argv += p_
-        r = cli(argv, cwd=d)
+        dbg = rr.random()
+        env = None
+        if dbg < 0.1:
+            argv.insert(1, rr.choice(['-v', '--verbose']))
+            res.labels.add('route:+verbose')
+        elif dbg < 0.2:
+            from ..core import scrub_env
+            env = scrub_env({'BKL_DEBUG': '1'})
+            res.labels.add('route:+BKL_DEBUG')
+        r = cli(argv, cwd=d, env=env)
         res.execs += 1
         if r.rc != 0:
             ctx.cleanup_case(d)
